@@ -77,7 +77,11 @@ func (c *Channel) read() {
 			}
 
 			// we got a transport error, put it into the error channel for processing during
-			// the next read activity, log it, sleep and then try again...
+			// the next read activity, log it, sleep and then try again... it is also remembered
+			// until a transport read succeeds again, otherwise a read activity that starts
+			// between two of these hand-offs would miss it and work off bytes queued earlier.
+			c.transportErr.Store(&err)
+
 			c.l.Criticalf(
 				"encountered error reading from transport during channel read loop. error: %s", err,
 			)
@@ -94,6 +98,8 @@ func (c *Channel) read() {
 
 			continue
 		}
+
+		c.transportErr.Store(nil)
 
 		if len(b) == 0 {
 			// nothing to process... no reason to enqueue empty bytes, sleep and then continue...
@@ -137,6 +143,10 @@ func (c *Channel) Read() ([]byte, error) {
 	util.VerifYield("chan.op.read.after-errs-poll")
 	if c.readLoopExited.Load() {
 		return nil, util.ErrConnectionError
+	}
+
+	if err := c.transportErr.Load(); err != nil {
+		return nil, *err
 	}
 
 	b := c.Q.Dequeue()
